@@ -16,153 +16,143 @@ Proof.
   rewrite has_error_app, IH. simpl. rewrite orb_false_r. apply orb_comm.
 Qed.
 
-(* the events a run adds to its accumulator *)
-Lemma run_extends : forall fuel silent T st toks acc evs,
-  run fuel silent T st toks acc = Ok evs -> exists new, evs = rev acc ++ new.
+(* feed only adds reductions *)
+Lemma feed_extends : forall fuel T st t acc r,
+  feed fuel T st t acc = Ok r ->
+  exists new, has_error new = false /\
+    match r with FShift _ a | FAccept a | FErr a => a = new ++ acc end.
 Proof.
-  induction fuel as [|f IH]; intros silent T st toks acc evs H; simpl in H; [discriminate|].
-  destruct toks as [|[t v] rest]; [discriminate|].
-  destruct (decide T (top st) t) as [a|] eqn:D.
-  - destruct (0 <? a)%Z.
-    + apply IH in H. destruct H as [new ->]. simpl. exists (EShift t v :: new).
-      rewrite <- app_assoc. reflexivity.
-    + destruct (a <? 0)%Z.
-      * destruct (t_prod T (Z.to_N (- a))) as [[lhs n]|]; [|discriminate].
-        destruct lhs as [|l]; [discriminate|].
-        destruct (t_goto T (top (skipn n st)) l); [|discriminate].
-        apply IH in H. destruct H as [new ->]. simpl. exists (EReduce (Z.to_N (- a)) :: new).
-        rewrite <- app_assoc. reflexivity.
-      * inversion H; subst. simpl. exists [EAccept]. reflexivity.
-  - destruct silent; [|discriminate].
-    destruct (Pos.eqb t (t_end T)).
-    + inversion H; subst. simpl. exists [EErrorEnd]. reflexivity.
-    + apply IH in H. destruct H as [new ->]. simpl. exists (EError t :: new).
-      rewrite <- app_assoc. reflexivity.
-Qed.
-
-(* 1. whatever the loud parser accepts, the silent parser accepts with the same trace *)
-Lemma loud_ok_silent_same : forall fuel T st toks acc evs,
-  run fuel false T st toks acc = Ok evs -> run fuel true T st toks acc = Ok evs.
-Proof.
-  induction fuel as [|f IH]; intros T st toks acc evs H; simpl in *; [discriminate|].
-  destruct toks as [|[t v] rest]; [discriminate|].
-  destruct (decide T (top st) t) as [a|]; [|discriminate].
-  destruct (0 <? a)%Z; [apply IH; exact H|].
-  destruct (a <? 0)%Z; [|exact H].
-  destruct (t_prod T (Z.to_N (- a))) as [[lhs n]|]; [|discriminate].
-  destruct lhs as [|l]; [discriminate|].
-  destruct (t_goto T (top (skipn n st)) l); [|discriminate].
-  apply IH; exact H.
-Qed.
-
-(* 2. a loud parse is error free *)
-Lemma loud_ok_no_error : forall fuel T st toks acc evs,
-  run fuel false T st toks acc = Ok evs -> has_error evs = has_error acc.
-Proof.
-  induction fuel as [|f IH]; intros T st toks acc evs H; simpl in *; [discriminate|].
-  destruct toks as [|[t v] rest]; [discriminate|].
-  destruct (decide T (top st) t) as [a|]; [|discriminate].
-  destruct (0 <? a)%Z; [apply IH in H; rewrite H; reflexivity|].
-  destruct (a <? 0)%Z.
-  - destruct (t_prod T (Z.to_N (- a))) as [[lhs n]|]; [|discriminate].
-    destruct lhs as [|l]; [discriminate|].
-    destruct (t_goto T (top (skipn n st)) l); [|discriminate].
-    apply IH in H; rewrite H; reflexivity.
-  - inversion H; subst. rewrite has_error_app, has_error_rev. simpl. apply orb_false_r.
-Qed.
-
-(* 3. a silent parse whose new events contain no error is also what the loud parser does *)
-Lemma silent_clean_loud_same : forall fuel T st toks acc evs,
-  run fuel true T st toks acc = Ok evs -> has_error evs = has_error acc ->
-  has_error acc = false ->
-  run fuel false T st toks acc = Ok evs.
-Proof.
-  induction fuel as [|f IH]; intros T st toks acc evs H HE HA; simpl in *; [discriminate|].
-  destruct toks as [|[t v] rest]; [discriminate|].
+  induction fuel as [|f IH]; intros T st t acc r H; simpl in H; [discriminate|].
   destruct (decide T (top st) t) as [a|].
-  - destruct (0 <? a)%Z; [apply IH; auto|].
-    destruct (a <? 0)%Z; [|exact H].
+  - destruct (0 <? a)%Z; [inversion H; subst; exists []; split; reflexivity|].
+    destruct (a <? 0)%Z; [|inversion H; subst; exists []; split; reflexivity].
     destruct (t_prod T (Z.to_N (- a))) as [[lhs n]|]; [|discriminate].
     destruct lhs as [|l]; [discriminate|].
     destruct (t_goto T (top (skipn n st)) l); [|discriminate].
-    apply IH; auto.
-  - exfalso. destruct (Pos.eqb t (t_end T)).
-    + inversion H; subst. rewrite has_error_app, has_error_rev in HE. simpl in HE. rewrite HA in HE. discriminate.
-    + pose proof (run_extends _ _ _ _ _ _ _ H) as [new ->].
-      rewrite !has_error_app, has_error_rev in HE. simpl in HE. rewrite HA in HE. discriminate.
+    apply IH in H. destruct H as [new [Hn Hr]].
+    exists (new ++ [EReduce (Z.to_N (- a))]). split.
+    + rewrite has_error_app, Hn. reflexivity.
+    + destruct r; subst; rewrite <- app_assoc; reflexivity.
+  - inversion H; subst. exists []. split; reflexivity.
 Qed.
 
-(* 4. the loud parser raises only DDLParserError, and exactly when the silent one meets an error *)
-Lemma loud_raise_is_ddl : forall fuel T st toks acc e,
-  run fuel false T st toks acc = Raise e -> e = DDLParserError.
+Lemma feed_never_raises : forall fuel T st t acc e, feed fuel T st t acc <> Raise e.
 Proof.
-  induction fuel as [|f IH]; intros T st toks acc e H; simpl in *; [discriminate|].
-  destruct toks as [|[t v] rest]; [discriminate|].
-  destruct (decide T (top st) t) as [a|]; [|inversion H; reflexivity].
-  destruct (0 <? a)%Z; [eapply IH; eauto|].
-  destruct (a <? 0)%Z; [|discriminate].
+  induction fuel as [|f IH]; intros T st t acc e H; simpl in H; [discriminate|].
+  destruct (decide T (top st) t) as [a|]; [|discriminate].
+  destruct (0 <? a)%Z; [discriminate|]. destruct (a <? 0)%Z; [|discriminate].
   destruct (t_prod T (Z.to_N (- a))) as [[lhs n]|]; [|discriminate].
   destruct lhs as [|l]; [discriminate|].
   destruct (t_goto T (top (skipn n st)) l); [|discriminate].
   eapply IH; eauto.
 Qed.
 
-Lemma loud_raise_silent_error : forall fuel T st toks acc e evs,
-  run fuel false T st toks acc = Raise e ->
-  run fuel true T st toks acc = Ok evs ->
-  exists new, evs = rev acc ++ new /\ has_error new = true.
+(* the events a run adds to its accumulator *)
+Lemma run_extends : forall silent T toks st acc evs,
+  run silent T st toks acc = Ok evs -> exists new, evs = rev acc ++ new.
 Proof.
-  induction fuel as [|f IH]; intros T st toks acc e evs H HS; simpl in *; [discriminate|].
-  destruct toks as [|[t v] rest]; [discriminate|].
-  destruct (decide T (top st) t) as [a|].
-  - destruct (0 <? a)%Z.
-    + destruct (IH _ _ _ _ _ _ H HS) as [new [-> Hn]]. simpl.
-      exists (EShift t v :: new). rewrite <- app_assoc. split; [reflexivity|exact Hn].
-    + destruct (a <? 0)%Z; [|discriminate].
-      destruct (t_prod T (Z.to_N (- a))) as [[lhs n]|]; [|discriminate].
-      destruct lhs as [|l]; [discriminate|].
-      destruct (t_goto T (top (skipn n st)) l); [|discriminate].
-      destruct (IH _ _ _ _ _ _ H HS) as [new [-> Hn]]. simpl.
-      exists (EReduce (Z.to_N (- a)) :: new). rewrite <- app_assoc. split; [reflexivity|exact Hn].
-  - destruct (Pos.eqb t (t_end T)).
-    + inversion HS; subst. simpl. exists [EErrorEnd]. split; reflexivity.
-    + pose proof (run_extends _ _ _ _ _ _ _ HS) as [new ->]. simpl.
-      exists (EError t :: new). rewrite <- app_assoc. split; reflexivity.
+  intros silent T toks. induction toks as [|[t v] rest IH]; intros st acc evs H; cbn [run] in H; [discriminate|].
+  destruct (feed feed_fuel T st t acc) as [r| | |] eqn:F; try discriminate.
+  destruct (feed_extends _ _ _ _ _ _ F) as [new [_ Hr]].
+  destruct r as [st' a|a|a]; subst a.
+  - apply IH in H. destruct H as [n2 ->]. simpl. rewrite rev_app_distr. rewrite <- !app_assoc. eexists; reflexivity.
+  - assert (E : evs = rev (EAccept :: new ++ acc)) by congruence. rewrite E.
+    simpl. rewrite rev_app_distr. rewrite <- !app_assoc. eexists; reflexivity.
+  - destruct silent; [|discriminate]. destruct (Pos.eqb t (t_end T)).
+    + assert (E : evs = rev (EErrorEnd :: new ++ acc)) by congruence. rewrite E.
+      simpl. rewrite rev_app_distr. rewrite <- !app_assoc. eexists; reflexivity.
+    + apply IH in H. destruct H as [n2 ->]. simpl. rewrite rev_app_distr. rewrite <- !app_assoc. eexists; reflexivity.
 Qed.
 
-Lemma silent_error_loud_raises : forall fuel T st toks acc evs new,
-  run fuel true T st toks acc = Ok evs -> evs = rev acc ++ new -> has_error new = true ->
-  run fuel false T st toks acc = Raise DDLParserError.
+(* 1. whatever the loud parser accepts, the silent parser accepts with the same trace *)
+Lemma loud_ok_silent_same : forall T toks st acc evs,
+  run false T st toks acc = Ok evs -> run true T st toks acc = Ok evs.
 Proof.
-  induction fuel as [|f IH]; intros T st toks acc evs new H HE HN; simpl in *; [discriminate|].
-  destruct toks as [|[t v] rest]; [discriminate|].
-  destruct (decide T (top st) t) as [a|]; [|reflexivity].
-  destruct (0 <? a)%Z.
-  - pose proof (run_extends _ _ _ _ _ _ _ H) as [new' E]. simpl in E.
-    rewrite E in HE. rewrite <- app_assoc in HE. apply app_inv_head in HE. subst new.
-    simpl in HN. eapply IH; [exact H| exact E | exact HN].
-  - destruct (a <? 0)%Z.
-    + destruct (t_prod T (Z.to_N (- a))) as [[lhs n]|]; [|discriminate].
-      destruct lhs as [|l]; [discriminate|].
-      destruct (t_goto T (top (skipn n st)) l); [|discriminate].
-      pose proof (run_extends _ _ _ _ _ _ _ H) as [new' E]. simpl in E.
-      rewrite E in HE. rewrite <- app_assoc in HE. apply app_inv_head in HE. subst new.
-      simpl in HN. eapply IH; [exact H| exact E | exact HN].
-    + inversion H as [H1]. rewrite HE in H1. apply app_inv_head in H1. subst new. discriminate.
+  intros T toks. induction toks as [|[t v] rest IH]; intros st acc evs H; cbn [run] in *; [discriminate|].
+  destruct (feed feed_fuel T st t acc) as [r| | |]; try discriminate.
+  destruct r as [st' a|a|a]; [apply IH; exact H | exact H | discriminate].
+Qed.
+
+(* 2. a loud parse is error free *)
+Lemma loud_ok_no_error : forall T toks st acc evs,
+  run false T st toks acc = Ok evs -> has_error evs = has_error acc.
+Proof.
+  intros T toks. induction toks as [|[t v] rest IH]; intros st acc evs H; cbn [run] in *; [discriminate|].
+  destruct (feed feed_fuel T st t acc) as [r| | |] eqn:F; try discriminate.
+  destruct (feed_extends _ _ _ _ _ _ F) as [new [Hn Hr]].
+  destruct r as [st' a|a|a]; subst a; [| |discriminate].
+  - apply IH in H. rewrite H. simpl. rewrite has_error_app, Hn. reflexivity.
+  - assert (E : evs = rev (EAccept :: new ++ acc)) by congruence. rewrite E.
+    rewrite has_error_rev. simpl. rewrite has_error_app, Hn. reflexivity.
+Qed.
+
+Lemma has_error_rev_cons_err e a : is_err e = true -> has_error (rev (e :: a)) = true.
+Proof. intro H. rewrite has_error_rev. simpl. rewrite H. reflexivity. Qed.
+
+(* 3. a silent parse whose trace contains no error is also what the loud parser does *)
+Lemma silent_clean_loud_same : forall T toks st acc evs,
+  run true T st toks acc = Ok evs -> has_error evs = false ->
+  run false T st toks acc = Ok evs.
+Proof.
+  intros T toks. induction toks as [|[t v] rest IH]; intros st acc evs H HE; cbn [run] in *; [discriminate|].
+  destruct (feed feed_fuel T st t acc) as [r| | |] eqn:F; try discriminate.
+  destruct r as [st' a|a|a].
+  - apply IH; assumption.
+  - exact H.
+  - exfalso. destruct (Pos.eqb t (t_end T)).
+    + assert (E : evs = rev (EErrorEnd :: a)) by congruence. rewrite E in HE.
+      rewrite has_error_rev_cons_err in HE; [discriminate|reflexivity].
+    + pose proof (run_extends _ _ _ _ _ _ H) as [new ->].
+      rewrite has_error_app, has_error_rev_cons_err in HE; [discriminate|reflexivity].
+Qed.
+
+(* 4. the loud parser raises only DDLParserError *)
+Lemma loud_raise_is_ddl : forall T toks st acc e,
+  run false T st toks acc = Raise e -> e = DDLParserError.
+Proof.
+  intros T toks. induction toks as [|[t v] rest IH]; intros st acc e H; cbn [run] in *; [discriminate|].
+  destruct (feed feed_fuel T st t acc) as [r|e'| |] eqn:F; try discriminate.
+  - destruct r as [st' a|a|a]; [eapply IH; eauto | discriminate | inversion H; reflexivity].
+  - exfalso. eapply feed_never_raises; eauto.
+Qed.
+
+(* 5. ... and when it does, the silent trace contains a recovery step *)
+Lemma loud_raise_silent_error : forall T toks st acc e evs,
+  run false T st toks acc = Raise e -> run true T st toks acc = Ok evs -> has_error evs = true.
+Proof.
+  intros T toks. induction toks as [|[t v] rest IH]; intros st acc e evs H HS; cbn [run] in *; [discriminate|].
+  destruct (feed feed_fuel T st t acc) as [r| | |] eqn:F; try discriminate.
+  destruct r as [st' a|a|a].
+  - eapply IH; eauto.
+  - discriminate.
+  - destruct (Pos.eqb t (t_end T)).
+    + assert (E : evs = rev (EErrorEnd :: a)) by congruence. rewrite E. apply has_error_rev_cons_err. reflexivity.
+    + pose proof (run_extends _ _ _ _ _ _ HS) as [new ->].
+      rewrite has_error_app, has_error_rev_cons_err; reflexivity.
+Qed.
+
+(* 6. conversely a recovery step in the silent trace means the loud parser raises *)
+Lemma silent_error_loud_raises : forall T toks st acc evs,
+  run true T st toks acc = Ok evs -> has_error acc = false -> has_error evs = true ->
+  run false T st toks acc = Raise DDLParserError.
+Proof.
+  intros T toks. induction toks as [|[t v] rest IH]; intros st acc evs H HA HE; cbn [run] in *; [discriminate|].
+  destruct (feed feed_fuel T st t acc) as [r| | |] eqn:F; try discriminate.
+  destruct (feed_extends _ _ _ _ _ _ F) as [new [Hn Hr]].
+  destruct r as [st' a|a|a]; subst a.
+  - eapply IH; [exact H | | exact HE]. simpl. rewrite has_error_app, Hn, HA. reflexivity.
+  - exfalso. assert (E : evs = rev (EAccept :: new ++ acc)) by congruence. rewrite E in HE.
+    rewrite has_error_rev in HE. simpl in HE. rewrite has_error_app, Hn, HA in HE. discriminate.
+  - reflexivity.
 Qed.
 
 (* silent never raises *)
-Lemma silent_never_raises : forall fuel T st toks acc e,
-  run fuel true T st toks acc <> Raise e.
+Lemma silent_never_raises : forall T toks st acc e,
+  run true T st toks acc <> Raise e.
 Proof.
-  induction fuel as [|f IH]; intros T st toks acc e H; simpl in *; [discriminate|].
-  destruct toks as [|[t v] rest]; [discriminate|].
-  destruct (decide T (top st) t) as [a|].
-  - destruct (0 <? a)%Z; [eapply IH; eauto|].
-    destruct (a <? 0)%Z; [|discriminate].
-    destruct (t_prod T (Z.to_N (- a))) as [[lhs n]|]; [|discriminate].
-    destruct lhs as [|l]; [discriminate|].
-    destruct (t_goto T (top (skipn n st)) l); [|discriminate].
-    eapply IH; eauto.
-  - destruct (Pos.eqb t (t_end T)); [discriminate|]. eapply IH; eauto.
+  intros T toks. induction toks as [|[t v] rest IH]; intros st acc e H; cbn [run] in *; [discriminate|].
+  destruct (feed feed_fuel T st t acc) as [r|e'| |] eqn:F; try discriminate.
+  - destruct r as [st' a|a|a]; [eapply IH; eauto | discriminate |].
+    destruct (Pos.eqb t (t_end T)); [discriminate | eapply IH; eauto].
+  - eapply feed_never_raises; eauto.
 Qed.
